@@ -906,6 +906,25 @@ struct NominalState<'a, 'b> {
 }
 
 impl<'b> NominalState<'_, 'b> {
+    // Name for an anonymous type at `path`. Different paths can spell the same name
+    // (`a_b` + `c` and `a` + `b_c`, argument 2 + field 0 and argument 20, a type and
+    // its own field `_`); a name that is already taken by a source definition or by
+    // another generated type gets a numeric suffix instead of silently replacing
+    // that type. The name is reserved until the caller binds it.
+    fn fresh_var(&self, env: &mut TypeEnv, path: &[TypePath]) -> String {
+        let base = path_to_var(path);
+        let taken = |n: &str| env.0.contains_key(n) || self.state.env.0.contains_key(n);
+        let name = if taken(&base) {
+            (1..)
+                .map(|i| format!("{base}{i}"))
+                .find(|n| !taken(n))
+                .unwrap()
+        } else {
+            base
+        };
+        env.0.insert(name.clone(), TypeInner::Unknown.into());
+        name
+    }
     // Convert structural typing to nominal typing to fit Rust's type system
     fn nominalize(
         &mut self,
@@ -973,7 +992,7 @@ impl<'b> NominalState<'_, 'b> {
                         self.state.update_stats("name");
                         res
                     } else {
-                        path_to_var(path)
+                        self.fresh_var(env, path)
                     };
                     let ty = self.nominalize(
                         env,
@@ -1018,7 +1037,7 @@ impl<'b> NominalState<'_, 'b> {
                         self.state.update_stats("name");
                         res
                     } else {
-                        path_to_var(path)
+                        self.fresh_var(env, path)
                     };
                     let ty = self.nominalize(
                         env,
@@ -1084,7 +1103,7 @@ impl<'b> NominalState<'_, 'b> {
                         self.state.update_stats("name");
                         res
                     } else {
-                        path_to_var(path)
+                        self.fresh_var(env, path)
                     };
                     let ty = self.nominalize(
                         env,
@@ -1116,7 +1135,7 @@ impl<'b> NominalState<'_, 'b> {
                         self.state.update_stats("name");
                         res
                     } else {
-                        path_to_var(path)
+                        self.fresh_var(env, path)
                     };
                     let ty = self.nominalize(
                         env,
@@ -1136,10 +1155,16 @@ impl<'b> NominalState<'_, 'b> {
                 };
                 TypeInner::Class(
                     args.iter()
-                        .map(|arg| {
+                        .enumerate()
+                        .map(|(i, arg)| {
                             let elem = StateElem::Label("init");
                             let old = self.state.push_state(&elem);
-                            path.push(TypePath::Init);
+                            // like function arguments: init, init1, init2, ...
+                            if i == 0 {
+                                path.push(TypePath::Init);
+                            } else {
+                                path.push(TypePath::Func(format!("init{i}")));
+                            }
                             let ty = self.nominalize(env, path, arg, None);
                             path.pop();
                             self.state.pop_state(old, elem);
